@@ -94,6 +94,10 @@ Advance ==
                   (* deviation: break before the step counter is advanced *)
                   /\ step' = IF "break_before_count" \in DEV THEN step ELSE step + 1
                   /\ UNCHANGED <<phase, ep, t, last, cur>>
+             ELSE IF "step_after_end" \in DEV
+             THEN (* deviation: the loop goes on without resetting the ended environment *)
+                  /\ cur' = res.obs /\ step' = step + 1 /\ pc' = "act"
+                  /\ UNCHANGED <<phase, ep, t, last>>
              ELSE /\ phase' = "running" /\ ep' = ep + 1 /\ t' = 0 /\ last' = <<ep + 1, 0>>
                   (* deviation: the successor overwrites the reset observation *)
                   /\ cur' = IF "stale_after_reset" \in DEV THEN res.obs ELSE <<ep + 1, 0>>
